@@ -33,6 +33,9 @@ pub struct Hz {
     pub cap_next: usize,
     /// halt: set the flag when the invocation counter reaches this value (1-based)
     pub halt_at: Option<u64>,
+    /// the invocation with this number replaces the halt token of the env it was given by a fresh one (an embedder
+    /// command that arms a new cancel token); the flag is raised later through whatever token the env then holds
+    pub rearm_at: Option<u64>,
     pub halt_flag: Option<Arc<AtomicBool>>,
     pub shared_counter: Option<Arc<std::sync::atomic::AtomicU64>>,
     pub invocations: u64,
@@ -58,8 +61,11 @@ pub fn with_hz<T>(f: impl FnOnce(&mut Hz) -> T) -> T {
     HZ.with(|h| f(&mut h.borrow_mut()))
 }
 
-pub fn note_invocation(h: &mut Hz, variables: &HashMap<String, String>, env_halt: &Arc<AtomicBool>) {
+pub fn note_invocation(h: &mut Hz, variables: &HashMap<String, String>, env_halt: &mut Arc<AtomicBool>) {
     h.invocations += 1;
+    if h.rearm_at == Some(h.invocations) {
+        *env_halt = Arc::new(AtomicBool::new(false));
+    }
     if let Some(c) = &h.shared_counter {
         c.fetch_add(1, Ordering::SeqCst);
     }
@@ -110,7 +116,7 @@ simple_command!(EmitCmd, "hz::Emit", ["emit"], |c| {
             line: c.line,
             out: c.output_variable.clone(),
         });
-        note_invocation(h, c.variables, &c.env.halt);
+        note_invocation(h, c.variables, &mut c.env.halt);
     });
     CommandResult::Continue(None)
 });
@@ -123,7 +129,7 @@ simple_command!(CapCmd, "hz::Cap", ["cap", "cap2", "hz_capture"], |c| {
             line: c.line,
             out: c.output_variable.clone(),
         });
-        note_invocation(h, c.variables, &c.env.halt);
+        note_invocation(h, c.variables, &mut c.env.halt);
         let a = if h.cap_next < h.cap_answers.len() {
             h.cap_answers[h.cap_next].clone()
         } else {
@@ -168,7 +174,7 @@ simple_command!(TickCmd, "hz::Tick", ["tick"], |c| {
             line: c.line,
             out: c.output_variable.clone(),
         });
-        note_invocation(h, c.variables, &c.env.halt);
+        note_invocation(h, c.variables, &mut c.env.halt);
         tick_step(&mut h.ticks, &key, n)
     });
     CommandResult::Continue(Some(if r { "true".into() } else { "false".into() }))
@@ -185,7 +191,7 @@ simple_command!(TockCmd, "hz::Tock", ["tock"], |c| {
             line: c.line,
             out: c.output_variable.clone(),
         });
-        note_invocation(h, c.variables, &c.env.halt);
+        note_invocation(h, c.variables, &mut c.env.halt);
         crate::flow::tock_step(&mut h.tocks, &key, n)
     });
     CommandResult::Continue(Some(if r { "true".into() } else { "false".into() }))
@@ -218,6 +224,38 @@ pub fn bare_context() -> Context {
     let mut c = Context::new();
     register_harness_commands(&mut c.commands);
     c
+}
+
+/// Spread-binds (`emit %{v}`) every tail of `line` that starts after a blank, on this thread, on a throw-away context:
+/// what an unrelated earlier script does when it spreads a variable that happens to hold the same text as the arguments
+/// of a line parsed later. A parse must not depend on it (C01, C08).
+pub fn spread_tails_on_this_thread(line: &str) -> usize {
+    use duckscript::types::instruction::{Instruction, InstructionMetaInfo, InstructionType, ScriptInstruction};
+    let l = line.trim_end_matches(['\n', '\r']).trim();
+    let mut tails: Vec<String> = vec![l.to_string()];
+    for (i, ch) in l.char_indices() {
+        if ch == ' ' {
+            let cand = l[i..].trim_start().to_string();
+            if !cand.is_empty() && !tails.contains(&cand) {
+                tails.push(cand);
+            }
+            if tails.len() >= 12 {
+                break;
+            }
+        }
+    }
+    let mut c = bare_context();
+    let (mut env, _o) = make_env(None);
+    for v in &tails {
+        c.variables.insert("zzv".to_string(), v.clone());
+        let mut si = ScriptInstruction::new();
+        si.command = Some("emit".to_string());
+        si.arguments = Some(vec!["%{zzv}".to_string()]);
+        let ins = Instruction { meta_info: InstructionMetaInfo::new(), instruction_type: InstructionType::Script(si) };
+        let _ = runner::run_instruction(&mut c.commands, &mut c.variables, &mut c.state, &vec![], ins, 0, &mut env);
+    }
+    hz_reset();
+    tails.len()
 }
 
 #[derive(Clone, Default)]
